@@ -5,6 +5,9 @@
    (StyleProcessors.Origin/Position/Extent.compute, called with parent = None) are the shared
    `compute_prop` of Model/Isd.v.  Statement order of the Python code is kept; where Python raises the
    outcome is `Err code`.  No proofs here.
+   The model follows /repo after the repairs a7b547e (bg_color without body), c0beb1f (end = 0 in the fingerprint),
+   d8691ec (the extent is defaulted and computed before tts:position), 5958b0b (tts:position is supported on regions
+   only: two style filters) and 2d34128 (tts:textAlign in the fingerprint when preserve_text_align is set).
 
    Dictionaries: `element._styles` and `doc._initial_values` are insertion-ordered dicts, modelled by `smap`
    (pop = sdel / filter keeps the order of the rest; assignment to an existing key keeps its place = sset).
@@ -30,7 +33,7 @@ Fixpoint map_attrs (f : attrs -> attrs) (e : elem) : elem :=
 (* ---- SupportedStylePropertiesFilter ------------------------------------------------------------------ *)
 (* supported_styles of LCDDocFilter.process; every value list is [], so a property survives iff it is a key *)
 Definition supported (c : lcd_cfg) (p : Z) : bool :=
-  (p =? p_DisplayAlign) || (p =? p_Extent) || (p =? p_Origin) || (p =? p_Position)
+  (p =? p_DisplayAlign) || (p =? p_Extent) || (p =? p_Origin)
   || (c_pta c && (p =? p_TextAlign))
   || (match c_color c with None => p =? p_Color | Some _ => false end)
   || (match c_bg c with None => p =? p_BackgroundColor | Some _ => false end).
@@ -38,6 +41,12 @@ Definition supported (c : lcd_cfg) (p : Z) : bool :=
 Definition keep_styles (c : lcd_cfg) (m : smap) : smap := filter (fun kv => supported c (fst kv)) m.
 Definition style_attrs (c : lcd_cfg) (a : attrs) : attrs := with_styles a (keep_styles c (e_styles a)).
 Definition style_elem (c : lcd_cfg) : elem -> elem := map_attrs (style_attrs c).
+(* region_style_filter = {**supported_styles, Position: []}  (after fix 5958b0b: tts:position is kept on regions only,
+   where the loop below converts it to tts:origin and removes it) *)
+Definition rsupported (c : lcd_cfg) (p : Z) : bool := supported c p || (p =? p_Position).
+Definition keep_rstyles (c : lcd_cfg) (m : smap) : smap := filter (fun kv => rsupported c (fst kv)) m.
+Definition rstyle_attrs (c : lcd_cfg) (a : attrs) : attrs := with_styles a (keep_rstyles c (e_styles a)).
+Definition rstyle_elem (c : lcd_cfg) : elem -> elem := map_attrs (rstyle_attrs c).
 
 (* ---- RemoveAnimationFilter (after fix 353f95b: iterates over a copy, every step is removed) ---------- *)
 Definition anim_attrs (a : attrs) : attrs := with_anims a [].
@@ -77,15 +86,15 @@ Definition new_display_align (wm da : value) (st : smap) : res Z :=
 (* the style part of one iteration: the region's style map after the two clean-ups -> its final style map,
    the writing mode used in the fingerprint and the new displayAlign *)
 Definition region_pre (d : doc) (inits : smap) (st : smap) : res smap :=
+  (* compute extent   (after fix d8691ec: first, and the initial value is computed too — tts:position is relative to it) *)
+  let st := if shas st p_Extent then st else sset st p_Extent (init_or inits p_Extent) in
+  bind (compute_prop d None st p_Extent) (fun st =>
   (* compute origin *)
   bind (if shas st p_Origin then compute_prop d None st p_Origin else Ok st) (fun st =>
   bind (if shas st p_Position
         then bind (compute_prop d None st p_Position) (fun st' => Ok (sdel st' p_Position))
         else Ok st) (fun st =>
-  let st := if shas st p_Origin then st else sset st p_Origin (init_or inits p_Origin) in
-  (* compute extent *)
-  bind (if shas st p_Extent then compute_prop d None st p_Extent else Ok st) (fun st =>
-  Ok (if shas st p_Extent then st else sset st p_Extent (init_or inits p_Extent))))).
+  Ok (if shas st p_Origin then st else sset st p_Origin (init_or inits p_Origin))))).
 Definition region_layout (c : lcd_cfg) (d : doc) (inits : smap) (st : smap) : res (smap * Z * Z) :=
   bind (region_pre d inits st) (fun st =>
   (* writing mode and display align *)
@@ -98,12 +107,18 @@ Definition region_layout (c : lcd_cfg) (d : doc) (inits : smap) (st : smap) : re
   let st := sset st p_Extent (VExtent (pct (100 - 2 * c_sa c)) (pct (100 - 2 * c_sa c))) in
   Ok (st, enum_tag wm, nda))).
 
-(* fingerprint = (begin or 0, end, writing_mode, new_display_align)   (after fix c0beb1f: region.get_end(), no `or None`) *)
-Definition fp := (Q * option Q * Z * Z)%type.
+(* fingerprint = (begin or 0, end, writing_mode, new_display_align, textAlign if preserve_text_align else None)
+   (after fix c0beb1f: region.get_end(), no `or None`; after fix 2d34128: the region's tts:textAlign when it is preserved) *)
+Definition fp := (Q * option Q * Z * Z * option Z)%type.
 Definition or0 (b : option Q) : Q := match b with Some x => x | None => 0%Q end.
+Definition oZ_eqb (a b : option Z) : bool :=
+  match a, b with Some x, Some y => x =? y | None, None => true | _, _ => false end.
 Definition fp_eqb (a b : fp) : bool :=
-  let '(b1, e1, w1, d1) := a in let '(b2, e2, w2, d2) := b in
-  Qeq_bool b1 b2 && oQ_eqb e1 e2 && (w1 =? w2) && (d1 =? d2).
+  let '(b1, e1, w1, d1, t1) := a in let '(b2, e2, w2, d2, t2) := b in
+  Qeq_bool b1 b2 && oQ_eqb e1 e2 && (w1 =? w2) && (d1 =? d2) && oZ_eqb t1 t2.
+(* region.get_style(StyleProperties.TextAlign) if self.config.preserve_text_align else None *)
+Definition fp_align (c : lcd_cfg) (st : smap) : option Z :=
+  if c_pta c then option_map enum_tag (sget st p_TextAlign) else None.
 Fixpoint lookup_fp (l : list (fp * text)) (f : fp) : option text :=
   match l with [] => None | (g, t) :: l' => if fp_eqb g f then Some t else lookup_fp l' f end.
 
@@ -115,12 +130,12 @@ Fixpoint lcd_regions (c : lcd_cfg) (d : doc) (inits : smap) (rs : list elem) (re
   match rs with
   | [] => Ok []
   | r :: rs' =>
-      let r1 := style_elem c (anim_elem r) in
+      let r1 := rstyle_elem c (anim_elem r) in
       let a := eattrs r1 in
       bind (region_layout c d inits (e_styles a)) (fun x =>
       let '(st, wm, nda) := x in
       let r2 := Elem (with_styles a st) (echildren r1) in
-      let f : fp := (or0 (e_begin a), e_end a, wm, nda) in
+      let f : fp := (or0 (e_begin a), e_end a, wm, nda, fp_align c st) in
       match lookup_fp retained f with
       | None => bind (lcd_regions c d inits rs' ((f, rid a) :: retained)) (fun out => Ok ((r2, None) :: out))
       | Some t => bind (lcd_regions c d inits rs' retained) (fun out => Ok ((r2, Some t) :: out))
